@@ -80,6 +80,20 @@ func RunGrid(rec *ev.Recorder, grid []luagen.GridCase, o harness.Opts, nontrivia
 	return nviol
 }
 
+// ClassifyGen records which generator templates a program contains, and which
+// of them ended up in a program the model could not decide (so that a
+// template that is always discarded shows up in the evidence).
+func ClassifyGen(rec *ev.Recorder, prog *luagen.Program, res luaref.Result) {
+	undecided := res.Unspecified != "" || res.Budget || res.OrderSensitive
+	for f := range prog.Feat {
+		if undecided {
+			rec.Class("gen-undecided:" + f)
+		} else {
+			rec.Class("gen:" + f)
+		}
+	}
+}
+
 // RunRandom runs rapid-generated programs of the given profile in several
 // renderings. observe is called once per program with the model's result of
 // the canonical rendering and returns whether the case is non-trivial.
@@ -95,6 +109,9 @@ func RunRandom(rec *ev.Recorder, name string, prof luagen.Profile, checks, rende
 			}
 			src, lines := mlua.Render(prog.Block, ch)
 			res := Model(prog.Block, lines, specs)
+			if k == 0 {
+				ClassifyGen(rec, prog, res)
+			}
 			switch {
 			case res.Unspecified != "":
 				rec.Discard("unspecified: " + res.Unspecified)
